@@ -24,6 +24,8 @@ Check ==
          ELSE IF Ev.end # "EOF" THEN "sequential-end-not-eof" ELSE "ok"
     [] Ev.t = "mmapopen" -> "mmap-open-failed"
     [] Ev.t = "at" -> IF Ev.r # AtOffset(recs, Ev.off) THEN "read-at-offset" ELSE "ok"
+    \* the record the file was cut in (concurrent readers, C18): an error or end-of-file, never data
+    [] Ev.t = "atcut" -> IF Ev.r = "EOF" \/ IsErr(Ev.r) THEN "ok" ELSE "cut-record-returned"
     [] Ev.t = "seeknext" ->
          LET e == NextFrom(recs, Ev.from) IN
          \* no record at or after `from`: end-of-file or an error for an offset outside the file - never data
